@@ -4,6 +4,7 @@ so the file stays right after a rebase). 'known' entries and comments are kept a
 import json, os, re, subprocess
 ROOT = os.path.dirname(os.path.dirname(os.path.abspath(__file__)))
 RULES = [
+    (r'resumed inside an except block', 'C05'),
     (r'iter\(callable, sentinel\) stays exhausted', 'C05'),
     (r'is_integer\(\) is False', 'C15'),
     (r'a sign is not a hex digit', 'C06'),
